@@ -18,6 +18,9 @@ class Boom(Exception):
     pass
 
 
+FORM = "positional"          # how the callers pass the argument: all of them the same way (f(1) and f(x=1) are different keys)
+
+
 def run_case(method, outcome, arrivals, cancels, evict_at, expiration):
     """arrivals: arrival instants of callers with key 1 (invocation takes 1.0); cancels: {caller: instant}"""
     async def main(loop):
@@ -56,7 +59,7 @@ def run_case(method, outcome, arrivals, cancels, evict_at, expiration):
         async def caller(i, at):
             await asyncio.sleep(at)
             try:
-                results[i] = ("ret", await fn(1))
+                results[i] = ("ret", await (fn(x=1) if FORM == "keyword" else fn(1)))
             except asyncio.CancelledError:
                 results[i] = ("cancelled", None)
                 raise
@@ -73,7 +76,7 @@ def run_case(method, outcome, arrivals, cancels, evict_at, expiration):
         if evict_at is not None:
             async def evictor():
                 await asyncio.sleep(evict_at)
-                await fn(2)                      # another key with limit=1 evicts key 1
+                await (fn(x=2) if FORM == "keyword" else fn(2))                      # another key with limit=1 evicts key 1
             extra.append(asyncio.ensure_future(evictor()))
         await asyncio.gather(*tasks, *extra, return_exceptions=True)
         await asyncio.sleep(3)
@@ -220,6 +223,22 @@ def search():
                                 if p:
                                     return n, dict(method=method, outcome=outcome, arrivals=arrivals, cancels=cancels,
                                                    evict_at=evict_at, expiration=expiration, problem=p)
+    # the same sharing for callers that pass the argument by keyword (a reduced sweep: the key is built differently)
+    global FORM
+    FORM = "keyword"
+    try:
+        for method in (False, True):
+            for outcome in ("value", "exc"):
+                for arrivals in ([0, 0], [0, 0.5, 0.9], [0, 0.5, 1.2]):
+                    for cancels in ({}, {0: 0.6}, {1: 0.6}):
+                        for evict_at, expiration in ((None, None), (0.7, None), (None, 0.3)):
+                            n += 1
+                            p = run_case(method, outcome, arrivals, cancels, evict_at, expiration)
+                            if p:
+                                return n, dict(method=method, outcome=outcome, arrivals=arrivals, cancels=cancels, evict_at=evict_at,
+                                               expiration=expiration, form="keyword arguments", problem=p)
+    finally:
+        FORM = "positional"
     return n, None
 
 
